@@ -388,7 +388,48 @@ IOTLB_W = {"iova": "iova", "size": "size", "uaddr": "userspace_addr", "perm": "p
 IOTLB_R = {v: k for k, v in IOTLB_W.items()}
 
 
+def u4_acked(fb, chk):
+    """The acknowledged backend features (which select the IOTLB layout) are what the kernel accepted: recorded only
+    after VHOST_SET_BACKEND_FEATURES succeeded, with the value that was passed to it."""
+    fs = [f for f in fb.find(name="set_backend_features") if "vhost_kern" in f.key and f.blocks]
+    if not fs:
+        chk.anchor_missing("U4", "set_backend_features (kernel features trait)")
+        return
+    for f in fs:
+        chk.fn_seen(f)
+        m = must_of(fb, f)
+        io = [(bb, t, c) for bb, t, c in sites(f, name={"ioctl_with_ref", "ioctl_with_mut_ref", "ioctl_with_val"})]
+        st = [(bb, t, c) for bb, t, c in sites(f, name="set_backend_features_acked")]
+        ok = len(io) == 1 and len(st) >= 1
+        why = "expected one ioctl and a store of the acked features (found %d / %d)" % (len(io), len(st))
+        if ok:
+            call = m.sym.call_at(io[0][0])
+            ioarg = m.sym.arg_terms(io[0][0])[2]
+            for bb, t, c in st:
+                atoms = m.atoms_at(bb)
+                succ = False
+                for a in atoms:
+                    if a[0] == "cmp" and a[2] == call or (a[0] == "cmp" and a[2][0] == "call" and a[2][1] == call[1] and a[2][3] == call[3]):
+                        v = const_eval(fb, m.sym, a[3])
+                        if (a[1] == "Ge" and v == 0) or (a[1] == "Gt" and v == -1) or (a[1] == "Eq" and v == 0):
+                            succ = True
+                    if a[0] == "ok" and a[1][0] == "call" and a[1][1] == "ioctl_result" and any(x == call for x in subterms(a[1])):
+                        succ = True
+                val = m.sym.arg_terms(bb)[1]
+                same = root_of(val) == root_of(ioarg)
+                if not succ:
+                    ok = False
+                    why = "the acknowledged backend features are recorded without the fact that the ioctl succeeded (ret >= 0)"
+                elif not same:
+                    ok = False
+                    why = "the recorded value %s is not the value passed to the ioctl (%s)" % (show(val)[:40], show(ioarg)[:40])
+        chk.check(ok, "U4", "acked:%s" % f.short, "acked features := the value the kernel accepted (stored under ret >= 0)",
+                  "%s: %s; after a refused VHOST_SET_BACKEND_FEATURES the IOTLB messages would be written in a layout the kernel "
+                  "did not acknowledge" % (f.short, why), f.loc())
+
+
 def u4(fb, chk):
+    u4_acked(fb, chk)
     fs = [f for f in fb.find(name="send_iotlb_msg") if "vhost_kern::" in f.key]
     if len(fs) != 1:
         chk.anchor_missing("U4", "send_iotlb_msg (kernel impl)")
